@@ -1190,7 +1190,7 @@ def findFactory (st : State) (name : LibName) (loc : Loc) : Except SErr Factory 
   match libLookup st.factories name with
   | some f => (.ok f, st)
   | none =>
-    match st.files.lookup (libPath name) with
+    match st.files.lookup (fileKey st.dir (libPath name)) with
     | none => (.error (.libNotFound, loc), st)
     | some .unreadable => (.error (.io, none), st)
     | some (.text t) =>
